@@ -876,3 +876,77 @@ func pathsThroughHaveEffect(w *World, fn *ssa.Function, site ssa.Instruction, is
 	walk(fn.Blocks[0], map[string]bool{}, map[*ssa.BasicBlock]int{fn.Blocks[0]: 1}, false, false)
 	return ok
 }
+
+// firstByteClass: the comparisons of fn between the buffer's first byte (b[0], possibly through
+// a local) and constants. lower/upper: a comparison sits exactly on the lower (0x3F|0x40) resp.
+// upper (0x7F|0x80) boundary of the first bytes of valid channel numbers — 0x4000..0x7FFF have
+// exactly the first bytes 0x40..0x7F, and every number with such a first byte is valid, so a
+// test on these boundaries is the range predicate applied to the leading 16 bits. other: a
+// comparison of the first byte with any other constant (a narrower or wider class).
+func firstByteClass(w *World, fn *ssa.Function) (lower, upper bool, other string) {
+	isFirst := func(v ssa.Value) bool {
+		v = stripIface(w.resolveLoad(under(v)))
+		u, ok := v.(*ssa.UnOp)
+		if !ok || u.Op != token.MUL {
+			return false
+		}
+		ia, ok := u.X.(*ssa.IndexAddr)
+		if !ok {
+			return false
+		}
+		k, isK := constInt(ia.Index)
+		if !isK || k != 0 {
+			return false
+		}
+		b, ok := u.Type().Underlying().(*types.Basic)
+		return ok && b.Kind() == types.Uint8
+	}
+	w.eachInstr(fn, func(in ssa.Instruction) {
+		bo, ok := in.(*ssa.BinOp)
+		if !ok {
+			return
+		}
+		switch bo.Op {
+		case token.LSS, token.LEQ, token.GTR, token.GEQ, token.EQL, token.NEQ:
+		default:
+			return
+		}
+		var k int64
+		op := bo.Op
+		switch {
+		case isFirst(bo.X):
+			kk, isK := constInt(bo.Y)
+			if !isK {
+				return
+			}
+			k = kk
+		case isFirst(bo.Y):
+			kk, isK := constInt(bo.X)
+			if !isK {
+				return
+			}
+			k = kk
+			switch op { // k OP first  ==  first OP' k
+			case token.LSS:
+				op = token.GTR
+			case token.LEQ:
+				op = token.GEQ
+			case token.GTR:
+				op = token.LSS
+			case token.GEQ:
+				op = token.LEQ
+			}
+		default:
+			return
+		}
+		switch {
+		case k == 0x40 && (op == token.GEQ || op == token.LSS), k == 0x3F && (op == token.GTR || op == token.LEQ):
+			lower = true
+		case k == 0x7F && (op == token.LEQ || op == token.GTR), k == 0x80 && (op == token.LSS || op == token.GEQ):
+			upper = true
+		default:
+			other = w.instrPos(in)
+		}
+	})
+	return
+}
